@@ -13,8 +13,9 @@ package core
 // target.  Every file-typed leaf of the pipeline's _outs is arbitrarily: null,
 // the empty string, a file inside the pipestance, a path inside the pipestance
 // that does not exist, a file outside the pipestance, a relative symlink
-// inside the pipestance to a sibling file, or an absolute symlink to a file
-// outside.
+// inside the pipestance to a sibling file, an absolute symlink to a file
+// outside, a file in a sub-directory of the files directory, or a relative
+// symlink to the file of an earlier output.
 //
 //	C13: every output file that exists is reachable under outs/ afterwards with
 //	     its identity (content) unchanged, the rewritten _outs designates that
@@ -303,12 +304,23 @@ type vpLeaf struct {
 }
 
 // vpMakeLeaf decides what file-typed leaf i is and builds it in the model.
-func vpMakeLeaf(i int, kind int) (vpLeaf, []byte) {
+func vpMakeLeaf(i int, kind int, first vpLeaf) (vpLeaf, []byte) {
 	name := "f" + string(rune('0'+i))
 	inside := vpFilesDir + "/" + name
 	outside := "/ext/" + name
 	l := vpLeaf{kind: kind}
+	if kind == 8 && (i == 0 || (first.kind != 2 && first.kind != 7)) {
+		kind, l.kind = 5, 5 // no earlier output to point at: a link to a sibling
+	}
 	switch kind {
+	case 7: // a file in a sub-directory of the stage's files directory
+		vpFS[vpFilesDir+"/sub"] = &vpNode{kind: 2}
+		l.path, l.inode = vpFilesDir+"/sub/"+name, 500+i
+		vpFS[l.path] = &vpNode{kind: 1, inode: l.inode}
+	case 8: // a relative symlink to the file of the first output (another output
+		// of the same pipeline, processed before this one)
+		l.path, l.inode = inside, first.inode
+		vpFS[inside] = &vpNode{kind: 3, target: strings.TrimPrefix(first.path, vpFilesDir+"/")}
 	case 0:
 		return l, []byte("null")
 	case 1:
@@ -366,7 +378,27 @@ func vpUnquote(b []byte) (string, bool) {
 // H_C13_postProcess(k0, k1, k2): the kinds of the leaves report, logs[0] and
 // st.f are the parameters (0..6); those of logs[1] and named.a are arbitrary
 // among {file inside, missing, file outside}.
-func H_C13_postProcess(k0, k1, k2 int) {
+func H_C13_postProcess(k0, k1, k2 int) { vpRun(k0, k1, k2) }
+
+// H_C13_linkChain(sub, where): an output that is a relative symlink to the
+// file of an earlier output of the same pipeline.  The earlier output (report)
+// lies directly in the stage's files directory or (sub = 1) in a
+// sub-directory of it; by the time the link is processed the file has been
+// moved to outs/ and replaced by a relative link, so the link is the start of a
+// chain of relative links through directories of different depth.
+func H_C13_linkChain(sub, where int) {
+	k0 := 2
+	if sub != 0 {
+		k0 = 7
+	}
+	if where == 0 {
+		vpRun(k0, 8, 2)
+	} else {
+		vpRun(k0, 2, 8)
+	}
+}
+
+func vpRun(k0, k1, k2 int) {
 	ps := vpGraph()
 	vpFS = map[string]*vpNode{}
 	vpWritten = nil
@@ -382,7 +414,7 @@ func H_C13_postProcess(k0, k1, k2 int) {
 	var leaves [5]vpLeaf
 	var js [5][]byte
 	for i := range kinds {
-		leaves[i], js[i] = vpMakeLeaf(i, kinds[i])
+		leaves[i], js[i] = vpMakeLeaf(i, kinds[i], leaves[0])
 	}
 	cat := func(parts ...[]byte) []byte {
 		var out []byte
@@ -450,7 +482,7 @@ func H_C13_postProcess(k0, k1, k2 int) {
 			}
 		}
 		verifAssert(found, "C13: every existing output file is materialised under outs/")
-		if l.kind == 2 {
+		if l.kind == 2 || l.kind == 7 {
 			verifAssert(strings.HasPrefix(q, "/ps/outs/"), "C13: a file inside the pipestance is reported at its new place under outs/")
 			if m := vpFS[path.Clean(q)]; m != nil {
 				verifAssert(m.kind == 1, "C13: a file inside the pipestance is moved into outs/, not linked")
